@@ -360,3 +360,15 @@ def read_elem(arr: sp.Basic, idx) -> sp.Basic:
         base, pat, val, lv = arr.args
         return op("item", arr, idx)
     return op("item", arr, idx)
+
+
+def strip_never(t: sp.Basic) -> sp.Basic:
+    """Value on the returning paths: ite(c, v, never()) -> v (the other paths raise)."""
+    def fn(n):
+        if fname(n) == "ite":
+            if fname(n.args[2]) == "never":
+                return n.args[1]
+            if fname(n.args[1]) == "never":
+                return n.args[2]
+        return None
+    return rewrite(to_term(t), fn)
